@@ -496,44 +496,45 @@ structure GmAcc (M : Type) where
   rv : M
   i : Int
 
+/-- body of the loop of the randomised move choice in `GetMove` (`base = v - RandomizeWindow`) -/
+def gmBody [DecidableEq M] (g : Game P M) (cfg : Cfg) (o : Oracle M) (depth : Int) (rest : List M) (v base : Int)
+    (m : M) (child : P) (a : GmAcc M) (s : Eng M) : Except Err (Ctl (GmAcc M) Unit × Eng M) := do
+  let sm ← setA s.stackM 0 m "stack[0].m"
+  let r ← pvSearch g cfg.opts o 1 child (depth - 1) rest (-v - 1) (-base) { s with stackM := sm }
+  let s := r.2
+  let cv := -r.1.2
+  if cv ≤ base then pure (.next a, s)
+  else
+    let pts := Int.tdiv (cv - base) cfg.randomizeScale
+    -- fixes/C04-randomize-scale.diff: candidates without positive weight are skipped
+    if pts ≤ 0 then pure (.next a, s) else
+    let i := a.i + pts
+    if i ≤ 0 then throw (.panic "rand.Int63n: invalid argument")
+    else
+      let rnd := o.rnd s.rnds i
+      pure (.next { rv := if rnd ≤ pts then m else a.rv, i := i }, { s with rnds := s.rnds + 1 })
+
+/-- the part of `GetMove` after `Analyze` returned `(pv, v, st)` -/
+def getMoveFrom [DecidableEq M] (g : Game P M) (cfg : Cfg) (o : Oracle M) (p : P)
+    (pv : List M) (v : Int) (st : Stats) (s : Eng M) : Except Err (M × Eng M) :=
+  match pv with
+  | [] => .ok (g.zeroMove, s)
+  | pv0 :: rest =>
+    if cfg.randomizeWindow == 0 then .ok (pv0, s)
+    else if v > Facts.winThreshold || v < -Facts.winThreshold then .ok (pv0, s)
+    else
+      match iterate g cfg.opts o p (rootMG st.depth pv)
+          (gmBody g cfg o st.depth rest v (v - cfg.randomizeWindow)) (⟨pv0, 0⟩ : GmAcc M) s with
+      | .error e => .error e
+      | .ok (.next a, s) | .ok (.brk a, s) => .ok (a.rv, s)
+      | .ok (.ret _, s) => .ok (pv0, s)
+
 /-- `GetMove` -/
 def getMove [DecidableEq M] (g : Game P M) (cfg : Cfg) (o : Oracle M) (p : P) (s : Eng M) :
     Except Err (M × Eng M) :=
   match analyze g cfg o p s with
   | .error e => .error e
-  | .ok ((pv, v, st), s) =>
-    match pv with
-    | [] => .ok (g.zeroMove, s)
-    | pv0 :: rest =>
-      if cfg.randomizeWindow == 0 then .ok (pv0, s)
-      else if v > Facts.winThreshold || v < -Facts.winThreshold then .ok (pv0, s)
-      else
-        let base := v - cfg.randomizeWindow
-        let body : M → P → GmAcc M → Eng M → Except Err (Ctl (GmAcc M) Unit × Eng M) :=
-          fun m child a s =>
-            match setA s.stackM 0 m "stack[0].m" with
-            | .error e => .error e
-            | .ok sm =>
-              let s := { s with stackM := sm }
-              match pvSearch g cfg.opts o 1 child (st.depth - 1) rest (-v - 1) (-base) s with
-              | .error e => .error e
-              | .ok ((_, cv), s) =>
-                let cv := -cv
-                if cv ≤ base then .ok (.next a, s)
-                else
-                  let pts := Int.tdiv (cv - base) cfg.randomizeScale
-                  -- fixes/C04-randomize-scale.diff: candidates without positive weight are skipped
-                  if pts ≤ 0 then .ok (.next a, s) else
-                  let i := a.i + pts
-                  if i ≤ 0 then .error (.panic "rand.Int63n: invalid argument")
-                  else
-                    let r := o.rnd s.rnds i
-                    let s := { s with rnds := s.rnds + 1 }
-                    .ok (.next { rv := if r ≤ pts then m else a.rv, i := i }, s)
-        match iterate g cfg.opts o p (rootMG st.depth pv) body (⟨pv0, 0⟩ : GmAcc M) s with
-        | .error e => .error e
-        | .ok (.next a, s) | .ok (.brk a, s) => .ok (a.rv, s)
-        | .ok (.ret _, s) => .ok (pv0, s)
+  | .ok ((pv, v, st), s) => getMoveFrom g cfg o p pv v st s
 
 /-! ### the specification side: exhaustive negamax -/
 
